@@ -270,9 +270,13 @@ func cmdCheck(args []string) int {
 		"wall_s":      time.Since(start).Seconds(),
 		"violations":  nviol,
 	}
-	_ = os.MkdirAll(filepath.Join(verifDir, "evidence"), 0o755)
+	evDir := filepath.Join(verifDir, "evidence")
+	if d := os.Getenv("VERIF_SCRATCH_EVIDENCE"); d != "" {
+		evDir = d // mutant trials (tools/try_seed_ov.sh) must not overwrite the evidence of the real tree
+	}
+	_ = os.MkdirAll(evDir, 0o755)
 	bz, _ := json.MarshalIndent(ev, "", " ")
-	if err := os.WriteFile(filepath.Join(verifDir, "evidence", prop+".json"), bz, 0o644); err != nil {
+	if err := os.WriteFile(filepath.Join(evDir, prop+".json"), bz, 0o644); err != nil {
 		fmt.Println("cannot write evidence:", err)
 		return 3
 	}
